@@ -23,7 +23,7 @@ TABLE = {
                 quick=[dict(n=8, blocks=20, maxtx=7), dict(n=3, blocks=15, boundary=True)],
                 thorough=[dict(n=50, blocks=40, maxtx=8), dict(n=40, blocks=40, maxtx=8, seed_off=11), dict(n=30, blocks=30, boundary=True)],
                 need=[("transfer", False), ("staking", False), ("unstaking", False), ("withdraw", False), ("proposal", False), ("voting", False)]),
-    "C10": dict(directed=["restart_truncated", "valcount_change", "self_below_min", "validator_churn", "twin_jail", "forced_unbond", "slash_then_unstake", "recreate_in_block", "early_unbond"],
+    "C10": dict(directed=["minstake_change", "restart_truncated", "valcount_change", "self_below_min", "validator_churn", "twin_jail", "forced_unbond", "slash_then_unstake", "recreate_in_block", "early_unbond"],
                 quick=[dict(n=8, blocks=30)],
                 thorough=[dict(n=60, blocks=50), dict(n=60, blocks=50, seed_off=13)],
                 need=[("staking", True), ("unstaking", True), ("absent", True)]),
@@ -31,7 +31,7 @@ TABLE = {
                 quick=[dict(n=8, blocks=25)],
                 thorough=[dict(n=60, blocks=50), dict(n=60, blocks=50, seed_off=17)],
                 need=[("staking", True), ("unstaking", True), ("evidence", True)]),
-    "C12": dict(directed=["unbond_period_shortened", "checktx_not_delivered", "genesis_twins_unbond", "twin_jail", "forced_unbond", "many_unbonding", "slash_then_unstake"],
+    "C12": dict(directed=["unbond_across_restart", "unbond_period_shortened", "checktx_not_delivered", "genesis_twins_unbond", "twin_jail", "forced_unbond", "many_unbonding", "slash_then_unstake"],
                 quick=[dict(n=8, blocks=30)],
                 thorough=[dict(n=60, blocks=50), dict(n=60, blocks=50, seed_off=19)],
                 need=[("unstaking", True), ("unstaking", False)]),
@@ -74,6 +74,29 @@ ASSUME = [
 ]
 
 
+# situations (RigoMon!Witness) that the histories explored for a property must exhibit - otherwise its clauses were vacuous
+WITNESS = {
+    "C02": ["rewards issued", "matured unbonding stake refunded", "evidence against a bonded validator", "block with fees", "contract execution succeeds"],
+    "C03": ["transfer transaction fails", "voting transaction succeeds"],
+    "C04": ["transfer transaction succeeds", "transfer transaction fails", "contract execution succeeds", "contract execution fails"],
+    "C05": ["staking transaction fails", "unstaking transaction fails", "voting transaction fails", "contract execution fails",
+            "staking change refused while the stake limiter is active"],
+    "C10": ["validator set changes", "validator removed from the set", "a new delegatee is created", "process restart"],
+    "C11": ["a validator's own unstaking releases its delegators", "delegation to another account", "evidence against a bonded validator",
+            "slashing forfeits a stake too small to be cut"],
+    "C12": ["matured unbonding stake refunded", "a validator's own unstaking releases its delegators", "validator jailed for downtime (all stake unbonding)",
+            "adopted parameters applied"],
+    "C13": ["rewards issued", "absent validator", "withdraw transaction succeeds", "withdraw transaction fails"],
+    "C14": ["evidence against a bonded validator", "evidence against an unknown / unbonded address", "several pieces of evidence in one block",
+            "evidence against a voter of an open proposal", "validator jailed for downtime (all stake unbonding)", "slashing forfeits a stake too small to be cut"],
+    "C15": ["proposal adopted", "proposal dropped for lack of majority", "adopted parameters applied", "parameters switch at commit", "re-vote",
+            "evidence against a voter of an open proposal"],
+    "C16": ["block with fees", "contract execution succeeds", "contract execution fails", "parameters switch at commit"],
+    "C17": ["contract execution succeeds", "contract execution fails"],
+    "C19": ["rewards issued", "matured unbonding stake refunded"],
+}
+
+
 def run(prop, tier, replay=None, mc=None):
     v = vlib.Verdict(prop, tier)
     cfg = TABLE[prop]
@@ -87,8 +110,9 @@ def run(prop, tier, replay=None, mc=None):
     traces, sdirs, dst = appcommon.gen_traces(tier, directed, cfg[tier], evm=cfg.get("evm", False))
     st = appcommon.collect(v, prop, traces, sdirs)
     missing = [k for k in cfg["need"] if tuple(k) not in st["kinds"]]
+    missing += [w for w in WITNESS.get(prop, []) if w not in st["witnesses"]]
     if missing and not v.violations:
-        raise vlib.MachineryError("driver never exercised %s (dead driver)" % missing)
+        raise vlib.MachineryError("the explored histories never exhibited %s (vacuous run / dead driver)" % missing)
     if st["unexpected"] and not v.violations:
         # on the unchanged tree every set-up step of every directed scenario behaves as intended
         print("NOTE scenario set-up deviations: %s" % st["unexpected"][:5], flush=True)
@@ -100,6 +124,8 @@ def run(prop, tier, replay=None, mc=None):
         "directed_scenarios": cfg["directed"], "random_profiles": cfg[tier],
         "outcome_kinds": sorted("%s:%s" % (a, "ok" if b else "fail") for a, b in st["kinds"]),
         "scenario_setup_deviations": st["unexpected"][:10],
+        "situations_exhibited_(antecedents_of_the_clauses)": sorted(st["witnesses"]),
+        "situations_required_for_this_property": WITNESS.get(prop, []),
         "model_conformance": "every recorded call is also executed by the transition model RigoCore.tla (RigoConf.tla): state fields and "
                              "responses compared after each step; a difference is printed as CONFORMANCE-DIFF and the model is re-synchronised",
         "model_steps_compared": st["model_steps"], "model_steps_adopted_(contract_execution)": st["model_adopted"],
